@@ -1,6 +1,10 @@
 // f_range.cpp — family "range": QHttpEngine::Range (C16)
 #include <qhttpengine/range.h>
 #include "families.h"
+#include <atomic>
+#include <mutex>
+#include <thread>
+#include <vector>
 using namespace QHttpEngine;
 
 static Val obs(const Range &r)
@@ -28,6 +32,28 @@ static Val run_range(const Val &c)
         Range copy(a, c.at(6).asInt() < 0 ? -1 : c.at(6).asInt());      // and copied once more after the query
         Val second = obs(copy);
         return (c.at(7).asInt() & 2) ? second : first;
+    }
+    case 5: {   // the same construction while other threads build ranges of their own (the class is a value class: reentrant)
+        QString str = QString::fromLatin1(c.at(1).asBytes());
+        qint64 size = c.at(2).asInt();
+        Val alone = obs(Range(str, size));
+        std::string want = alone.str();
+        std::atomic<bool> bad(false);
+        Val seen = alone;
+        std::mutex mu;
+        auto worker = [&](int t) {
+            static const char *others[] = {"-7", "100-200", "3-1", "0-0", "5-", " 12 - 34 ", "x", "99999999999-"};
+            for (int i = 0; i < 1500 && !bad.load(); ++i) {
+                Range other(QString::fromLatin1(others[(i + t) % 8]), 50 + t);
+                (void)other.contentRange();
+                Val got = obs(Range(str, size));
+                if (got.str() != want) { std::lock_guard<std::mutex> g(mu); if (!bad.exchange(true)) seen = got; }
+            }
+        };
+        std::vector<std::thread> ts;
+        for (int t = 0; t < 4; ++t) ts.emplace_back(worker, t);
+        for (auto &t : ts) t.join();
+        return seen;
     }
     }
     return badcase();
